@@ -516,7 +516,7 @@ var topicsAssumptions = []string{
 	"a topic without any event state may or may not be listed by TopicState (the statement does not say whether an empty topic exists)",
 	"glob patterns follow Go path.Match (client/API.md), the empty pattern selects all topics; path.Match is trusted",
 	"a Collect that returns 'failed to deliver event' errors (handler queue full, bufHandler.Handle) is an accounted drop: exactly that many registered handlers miss the event",
-	"DeregisterHandler/ReplaceHandler/DeleteTopic/Close return after the handler's queue is drained (bufHandler.Close): the ledger is compared without waiting at these points; elsewhere delivery is awaited by polling with a 25 s bound",
+	"DeregisterHandler/ReplaceHandler/DeleteTopic/Close return after the handler's queue is drained (bufHandler.Close): the ledger is compared without waiting at these points; elsewhere delivery is awaited by polling with a 20 s bound",
 }
 
 func TestTopics(t *testing.T) {
